@@ -156,6 +156,19 @@ def convert (cvD cvI : Nat → Nat) (c : Container) : Container :=
   { scalarIndex := c.scalarIndex, scalarDt := c.scalarDt.map cvD,
     elements := c.elements.map (·.map cvD), indices := c.indices.map (·.map cvI) }
 
+/-! ### decidable hypotheses of the round-trip theorems (evaluated by the driver on every case) -/
+
+/-- `WF` as a Boolean check -/
+def ImageOK (t : Tag) (sDT sIT : Nat) (c : Container) : Bool :=
+  (u64Words t sDT sIT c).all (fun v => decide (v < 256 ^ 8)) && c.scalarDt.all (fun v => decide (v < 256 ^ sDT)) &&
+  c.elements.all (fun a => a.all fun v => decide (v < 256 ^ sDT)) &&
+  c.indices.all (fun a => a.all fun v => decide (v < 256 ^ sIT))
+
+/-- every value survives the conversion to the file types and back (`cv` memory → file, `bk` file → memory) -/
+def Representable (cvD cvI bkD bkI : Nat → Nat) (c : Container) : Bool :=
+  c.scalarDt.all (fun v => bkD (cvD v) == v) && c.elements.all (fun a => a.all fun v => bkD (cvD v) == v) &&
+  c.indices.all (fun a => a.all fun v => bkI (cvI v) == v)
+
 /-! ### checkpoint framing -/
 
 def strBytes (s : String) : Bytes := s.toUTF8.toList
